@@ -49,10 +49,25 @@ def coq_str(s):
     return '"' + s.replace('"', '""') + '"'
 
 
+INERT_CALLS = {'len', 'type', 'str', 'repr', 'get_error_name'}
+
+
 def is_logging(st):
-    return (isinstance(st, ast.Expr) and isinstance(st.value, ast.Call)
+    """a logger.* statement whose arguments cannot have an effect: only constants, names, attributes,
+    subscripts, f-strings and calls of INERT_CALLS (a `list(x)` / `next(x)` / method call in a log
+    argument consumes or changes something: such a statement is NOT dropped, and is then refused)."""
+    if not (isinstance(st, ast.Expr) and isinstance(st.value, ast.Call)
             and isinstance(st.value.func, ast.Attribute) and isinstance(st.value.func.value, ast.Name)
-            and st.value.func.value.id == 'logger')
+            and st.value.func.value.id == 'logger'):
+        return False
+    for a in list(st.value.args) + [k.value for k in st.value.keywords]:
+        for n in ast.walk(a):
+            if isinstance(n, ast.Call) and not (isinstance(n.func, ast.Name) and n.func.id in INERT_CALLS):
+                return False
+            if isinstance(n, (ast.NamedExpr, ast.Await, ast.Yield, ast.YieldFrom, ast.Lambda, ast.ListComp,
+                              ast.SetComp, ast.DictComp, ast.GeneratorExp, ast.Starred)):
+                return False
+    return True
 
 
 def is_doc(st):
